@@ -1147,6 +1147,7 @@ class Interp:
         pass
 
     def s_Break(self, s):
+        self.emit("break", s)
         self.fr.break_envs.append((dict(self.fr.env), dict(self.ctx.selfenv)))
         return BREAK
 
@@ -1548,6 +1549,10 @@ class Interp:
             nb.tags.pop("raw_quotient_by", None)         # some entries were overwritten: no longer the raw quotient
             if isinstance(t.slice, ast.Slice) and t.slice.lower is not None and t.slice.upper is None and t.slice.step is None:
                 nb.tags["tail_filled"] = M.norm_text(t)      # x[k:] = …: the tail (padded rows of a batch vector) is set explicitly
+                ex_ = v.tag("extremum")
+                if ex_ is not None and ex_[1].term is not None and ex_[1].term == base.term:
+                    # … with an extremum of the WHOLE vector, i.e. taken over the padding it is about to overwrite (the zero fill wins a min)
+                    nb.tags["tail_filled_from_self"] = (ex_[0], M.norm_text(node) if hasattr(node, "lineno") else M.norm_text(t))
             nb.tags.pop("affine_grid", None)
             nb.term = mk_term("stored", base.term, f.term)
             if isinstance(t.value, ast.Name):
